@@ -3,7 +3,8 @@
    [min_fee] / [fee_for_input] are arbitrary functions (the real builder's min_fee() and fee_for_input()),
    [cs : list N] is the sequence of random draws (hook H1: k-th draw gen_range(0..n) = k-th element mod n), so the
    quantification over [cs] is the quantification over every outcome of the RNG.  [current] is the code as it is
-   (after /repo b244700, 2a9f309, d550071, 844a848, 0efa6ad, d980bbe, ab61362); the legacy variants are the code
+   (after /repo b244700, 2a9f309, d550071, 844a848, 0efa6ad, d980bbe, ab61362; amounts stored as push_input
+   normalises them since bb8d7fa); the legacy variants are the code
    before one of these repairs. *)
 From CSL Require Import Base.Prelude Num.Value CoinSel.CoinSel CoinSel.CoinSelSpec CoinSel.CoinSelLemmas CoinSel.CoinSelProofs
   CoinSel.CoinSelSound CoinSel.CoinSelRefute CoinSel.CoinSelJudge.
@@ -71,7 +72,7 @@ Theorem C08_largest_first_minimal :
     add_inputs_from min_fee fee_for_input current LargestFirst cs offered sc = (st', Done tt) ->
     forall k, (k < length (st_trace st'))%nat ->
       let eff := effective_offered current offered sc in
-      let before := imap_of_list (sc_pre sc) in
+      let before := initial_map sc in
       let prefix := added_utxos eff (firstn k (st_trace st')) in
       exists fk, required_fee min_fee fee_for_input before prefix = Ok fk /\ ~ covers_coin sc (before ++ prefix) fk.
 Proof. exact lf_minimal_top. Qed.
@@ -87,7 +88,7 @@ Theorem C08_largest_first_complete :
     initial_state min_fee sc = (st0, Done tt) -> coin (st_in st0) < coin (st_out st0) ->
     add_inputs_from min_fee fee_for_input current LargestFirst cs offered sc = (st', Insufficient) ->
     let eff := effective_offered current offered sc in
-    let before := imap_of_list (sc_pre sc) in
+    let before := initial_map sc in
     let added := added_utxos eff (st_trace st') in
     asset_guard st' = false \/
     (Permutation added eff /\
@@ -104,7 +105,7 @@ Theorem C08_lfma_complete :
     initial_state min_fee sc = (st0, Done tt) -> coin (st_in st0) < coin (st_out st0) ->
     add_inputs_from min_fee fee_for_input current LargestFirstMultiAsset cs offered sc = (st', Insufficient) ->
     let eff := effective_offered current offered sc in
-    let before := imap_of_list (sc_pre sc) in
+    let before := initial_map sc in
     exists sel fee, required_fee min_fee fee_for_input before (added_utxos eff (st_trace st')) = Ok fee /\
                     supply sel sc (before ++ eff) < demand sel sc fee.
 Proof. exact lfma_complete_top. Qed.
